@@ -73,3 +73,16 @@ Theorem C07_pad_keeps_the_original_voxels : forall r c s v pt pb pl pr pf pk val
              vshape v' = (r + pt + pb, c + pl + pr, s + pf + pk)%Z /\ padded_from v' v pt pl pf val.
 Proof. intros r c s v pt pb pl pr pf pk val. apply pad_constant. Qed.
 Print Assumptions C07_pad_keeps_the_original_voxels.
+
+(* PadIfNeeded.update_params (generated, including the position helper): for every volume size,
+   every documented configuration (per axis either a minimum or a positive divisor), every position
+   name and every value of the three random draws: all six pad amounts are non-negative and each
+   padded extent is max(extent, minimum), respectively the next multiple of the divisor. *)
+From DV.proofs Require Import PadParams.
+Open Scope Z_scope.
+Theorem C07_PadIfNeeded_sizes : forall mnd mnh mnw dvd dvh dvw pos rows cols slices d1 d2 d3 pt pb pl pr pf pk,
+  cfg_ok mnh dvh -> cfg_ok mnw dvw -> cfg_ok mnd dvd ->
+  PadIfNeededS_update_params mnd mnh mnw dvd dvh dvw pos rows cols slices d1 d2 d3 = Ok (pt, pb, pl, pr, pf, pk) ->
+  axis_ok rows mnh dvh pt pb /\ axis_ok cols mnw dvw pl pr /\ axis_ok slices mnd dvd pf pk.
+Proof. exact pad_params_ok. Qed.
+Print Assumptions C07_PadIfNeeded_sizes.
